@@ -167,6 +167,10 @@ func main() {
 		crashChild()
 		return
 	}
+	if len(os.Args) > 1 && os.Args[1] == "totalproc" {
+		totalChild()
+		return
+	}
 	if len(os.Args) < 4 && !(len(os.Args) == 2 && strings.HasSuffix(os.Args[1], "-one")) {
 		fmt.Fprintln(os.Stderr, "usage: harness <prop> <seed> <count> [tier]")
 		os.Exit(2)
